@@ -209,6 +209,14 @@ def compile_it(pt, prog, job):
     mode = pt.Mode.Application if job.get("app", True) else pt.Mode.Signature
     ss, fp = job.get("ss"), job.get("fp")
     opt = None if ss is None and fp is None else pt.OptimizeOptions(scratch_slots=ss, frame_pointers=fp)
+    if "_optimize_obj" in job:
+        opt = job["_optimize_obj"]              # ONE OptimizeOptions object shared by all steps of a session
+    if isinstance(prog, tuple) and prog[0] == "router_split":
+        # the two programs of a router compiled separately, each with its own fresh options object
+        ap_ast, cl_ast, _ = prog[1]._build_program(version=job["version"])   # reference only: the ASTs compile_program compiles
+        mk = prog[2]
+        return pt.compileTeal(ap_ast, pt.Mode.Application, version=job["version"], optimize=mk()) + "\n" + \
+            pt.compileTeal(cl_ast, pt.Mode.Application, version=job["version"], optimize=mk())
     if isinstance(prog, tuple) and prog[0] == "router":
         ap, cl, _ = prog[1].compile_program(version=job["version"], optimize=opt)
         return ap + "\n" + cl
@@ -354,6 +362,42 @@ def session_program(pt, name, version):
             return output.set(a.get() + Bytes("x"))
         r.add_method_handler(m)
         return ("router", r)
+    # ---- programs for the shared-OptimizeOptions sessions
+    if name == "reserved_slot_main":
+        a = pt.ScratchVar(u64, 10)
+        return Seq(a.store(Int(1)), pt.Return(a.load()))
+    if name == "dynamic_slot_main":
+        x = pt.ScratchVar(u64)
+        d = pt.DynamicScratchVar(u64)
+        return Seq(x.store(Int(1)), d.set_index(x), d.store(Int(2)), pt.Return(d.load()))
+    if name == "shared_slot_sub":
+        h = pt.ScratchVar(u64)
+
+        @pt.Subroutine(u64)
+        def read_h():
+            return h.load() + Int(1)
+        return Seq(h.store(Int(3)), pt.Return(read_h()))
+    if name == "global_storeload":
+        g = pt.ScratchVar(u64)
+
+        @pt.Subroutine(u64)
+        def read_g():
+            return g.load()
+        return Seq(g.store(Int(5)), Pop(g.load()), pt.Return(read_g()))
+    if name == "global_storeload_in_sub":
+        g = pt.ScratchVar(u64)
+
+        @pt.Subroutine(u64)
+        def bump():
+            return Seq(g.store(g.load() + Int(1)), g.load())
+        return Seq(g.store(Int(5)), Pop(bump()), pt.Return(g.load()))
+    if name in ("router_pair_combined", "router_pair_split"):
+        r = pt.Router("r", pt.BareCallActions(
+            no_op=pt.OnCompleteAction.create_only(Seq((a := pt.ScratchVar(u64, 10)).store(Int(1)), Pop(a.load()), Approve()))),
+            clear_state=session_program(pt, "global_storeload", version))
+        if name == "router_pair_combined":
+            return ("router", r)
+        return ("router_split", r, lambda: pt.OptimizeOptions(scratch_slots=True))
     # ---- programs that must be ACCEPTED wherever their constructs exist (the acceptance slice)
     if name == "abi_uint64_main":
         a = abi.Uint64()
@@ -402,9 +446,17 @@ def session_program(pt, name, version):
 def run_session(pt, job):
     import hashlib
     steps = []
+    shared = None
+    if "shared_optimize" in job:
+        so = job["shared_optimize"]
+        shared = pt.OptimizeOptions() if so == "default" else pt.OptimizeOptions(scratch_slots=True)
     for st_ in job["session"]:
         j = dict(st_)
         j.setdefault("app", True)
+        if shared is not None:
+            j["_optimize_obj"] = shared
+        elif job.get("fresh_optimize"):
+            j["_optimize_obj"] = pt.OptimizeOptions() if job["fresh_optimize"] == "default" else pt.OptimizeOptions(scratch_slots=True)
         out = {"prog": st_["prog"], "version": st_["version"]}
         signal.signal(signal.SIGALRM, _alarm)
         signal.setitimer(signal.ITIMER_REAL, job.get("timeout", 30))
